@@ -1,69 +1,83 @@
 (* C20/Progress.v — the socket reader is never stuck unless some stream the application holds has unread messages:
    capacities are positive, receiver ids are unique per channel, a full queue has a receiver that lags, and that receiver
-   belongs to a live stream (without async_drop in the history).  Plus the two refutation witnesses. *)
+   belongs to a live stream (when no async_drop is in progress). *)
 From ZV Require Import Base.Bytes Base.Res C19.Broadcast C19.BroadcastFacts C20.Model C20.Lemmas C20.Steps C20.Inv C20.InvG1 C20.InvG2 C20.InvG3 C20.Proofs.
 From Coq Require Import Lia Permutation.
 
-Definition caps_ok (s : sys) : Prop :=
-  (forall c, c < length (chans s) -> 1 <= cap (chan_at s c)) /\ (forall sid a, lookup (adds s) sid = Some a -> a_q a <> Some 0).
-Definition rcvs_ok (s : sys) : Prop := forall c, c < length (chans s) -> NoDup (map fst (rcv (chan_at s c))).
+Definition chok (x : chan item) : Prop := 1 <= cap x /\ NoDup (map fst (rcv x)).
+Definition shape_ok (s : sys) : Prop :=
+  (forall c, c < length (chans s) -> chok (chan_at s c)) /\ (forall sid a, lookup (adds s) sid = Some a -> a_q a <> Some 0).
 
-(* a channel replaced by one with the same capacity (or a larger one) *)
-Lemma caps_upd s s' c x : caps_ok s -> chans s' = upd (chans s) c x -> adds s' = adds s -> (c < length (chans s) -> cap (chan_at s c) <= cap x) -> caps_ok s'.
+Lemma chok_close x : chok x -> chok (close x).  Proof. intros H. exact H. Qed.
+Lemma chok_grow x n : chok x -> chok (grow n x).  Proof. intros [H1 H2]. split; [cbn; lia | exact H2]. Qed.
+Lemma chok_drop x id : chok x -> chok (drop_rcv id x).
+Proof. intros [H1 H2]. split; [exact H1 | cbn; now apply nodup_del_cursor]. Qed.
+Lemma chok_subscribe x id : chok x -> cursor x id = None -> chok (subscribe id x).
+Proof.
+  intros [H1 H2] Hc. split; [exact H1|]. cbn. rewrite map_app. cbn. apply NoDup_app_one; [exact H2|]. now apply cursor_in_none_iff.
+Qed.
+Lemma chok_clone x a b : chok x -> cursor x b = None -> chok (clone_rcv a b x).
+Proof.
+  intros [H1 H2] Hc. unfold clone_rcv. destruct (cursor x a); [|split; assumption]. split; [exact H1|]. cbn. rewrite map_app. cbn.
+  apply NoDup_app_one; [exact H2|]. now apply cursor_in_none_iff.
+Qed.
+
+Lemma shape_upd s s' c x : shape_ok s -> chans s' = upd (chans s) c x -> adds s' = adds s -> (c < length (chans s) -> chok (chan_at s c) -> chok x) -> shape_ok s'.
 Proof.
   intros [Hc Ha] Ech Ead Hx. split; [|now rewrite Ead]. intros c' Hlt. rewrite Ech, length_upd in Hlt. unfold chan_at. rewrite Ech.
-  destruct (Nat.eq_dec c' c) as [->|Hne]; [rewrite nth_upd_same by assumption; specialize (Hc _ Hlt); specialize (Hx Hlt); unfold chan_at in *; lia | rewrite nth_upd_other by assumption; now apply Hc].
+  destruct (Nat.eq_dec c' c) as [->|Hne]; [rewrite nth_upd_same by assumption; exact (Hx Hlt (Hc _ Hlt)) | rewrite nth_upd_other by assumption; now apply Hc].
 Qed.
 
-Lemma rcvs_upd s s' c x : rcvs_ok s -> chans s' = upd (chans s) c x -> (c < length (chans s) -> NoDup (map fst (rcv x))) -> rcvs_ok s'.
+Lemma shape_soc s s1 : (forall c, chan_at s1 c = chan_at s c \/ chan_at s1 c = close (chan_at s c)) -> length (chans s1) = length (chans s) ->
+  adds s1 = adds s -> shape_ok s -> shape_ok s1.
 Proof.
-  intros Hr Ech Hx c' Hlt. rewrite Ech, length_upd in Hlt. unfold chan_at. rewrite Ech.
-  destruct (Nat.eq_dec c' c) as [->|Hne]; [rewrite nth_upd_same by assumption; now apply Hx | rewrite nth_upd_other by assumption; now apply Hr].
+  intros Hch El Ea [Hc Ha]. split; [|now rewrite Ea]. intros c Hlt. rewrite El in Hlt. destruct (Hch c) as [E|E]; rewrite E; [now apply Hc | apply chok_close; now apply Hc].
 Qed.
 
-Section Progress.
-Variable matches : nat -> msg -> bool.
-Notation step := (Model.step matches).
-Notation exec := (Model.exec matches).
-Notation tstep := (Steps.tstep matches).
-Notation Inv := (Inv.Inv matches).
-Notation reach := (Model.reach matches).
-
-Lemma soc_cap_chain s s1 : (forall c, chan_at s1 c = chan_at s c \/ chan_at s1 c = close (chan_at s c)) -> length (chans s1) = length (chans s) ->
-  adds s1 = adds s -> caps_ok s -> caps_ok s1.
-Proof.
-  intros Hch El Ea [Hc Ha]. split; [|now rewrite Ea]. intros c Hlt. rewrite El in Hlt. destruct (Hch c) as [E|E]; rewrite E; now apply Hc.
-Qed.
-
-Lemma same_or_closed_strict_rm_apply s r s1 o c : rm_apply s r = (s1, o) -> chan_at s1 c = chan_at s c \/ chan_at s1 c = close (chan_at s c).
+Lemma strict_rm_apply s r s1 o c : rm_apply s r = (s1, o) -> chan_at s1 c = chan_at s c \/ chan_at s1 c = close (chan_at s c).
 Proof.
   intros H. apply rm_apply_spec in H. destruct H; try (left; reflexivity). destruct (Nat.eq_dec c (e_ch e)) as [->|Hne].
   - destruct (Nat.lt_ge_cases (e_ch e) (length (chans s))) as [Hlt|Hge]; [right; now rewrite chan_at_set_same|].
     left. unfold chan_at, set_chan. cbn. rewrite !nth_overflow; rewrite ?length_upd; try lia. reflexivity.
   - left. now rewrite chan_at_set_other.
 Qed.
-Lemma same_or_closed_strict_rm_sender s r c : chan_at (rm_sender s r) c = chan_at s c \/ chan_at (rm_sender s r) c = close (chan_at s c).
+Lemma strict_rm_sender s r c : chan_at (rm_sender s r) c = chan_at s c \/ chan_at (rm_sender s r) c = close (chan_at s c).
 Proof.
   unfold rm_sender. destruct (chan_of_key (senders s) (KRule r)) as [c0|]; [|now left]. destruct (Nat.eq_dec c c0) as [->|Hne].
   - destruct (Nat.lt_ge_cases c0 (length (chans s))) as [Hlt|Hge]; [right; now rewrite chan_at_set_same|].
     left. unfold chan_at, set_chan. cbn. rewrite !nth_overflow; rewrite ?length_upd; try lia. reflexivity.
   - left. now rewrite chan_at_set_other.
 Qed.
-Lemma same_or_closed_strict_close_all s c : chan_at (with_chans s (close_all s)) c = chan_at s c \/ chan_at (with_chans s (close_all s)) c = close (chan_at s c).
+Lemma strict_close_all s c : chan_at (with_chans s (close_all s)) c = chan_at s c \/ chan_at (with_chans s (close_all s)) c = close (chan_at s c).
 Proof.
   destruct (Nat.lt_ge_cases c (length (chans s))) as [Hlt|Hge].
   - rewrite chan_at_close_all by assumption. destruct (mem_nat c (map snd (senders s))); [now right | now left].
   - left. unfold chan_at. cbn. rewrite !nth_overflow; rewrite ?length_close_all; try lia. reflexivity.
 Qed.
 
-Lemma caps_bury s sid st : caps_ok s -> caps_ok (bury s sid st).
-Proof. intros H. eapply (caps_upd s _ (s_ch st)); [exact H | apply chans_bury | reflexivity | intros _; reflexivity]. Qed.
+Lemma shape_bury s sid st : shape_ok s -> shape_ok (bury s sid st).
+Proof. intros H. eapply (shape_upd s _ (s_ch st)); [exact H | apply chans_bury | reflexivity | intros _ Hk; now apply chok_drop]. Qed.
 
-Lemma caps_step s l s' : tstep s l s' -> caps_ok s -> caps_ok s'.
+Section Progress.
+Variable matches : nat -> msg -> bool.
+Notation step := (Model.step matches).
+Notation tstep := (Steps.tstep matches).
+Notation Inv := (Inv.Inv matches).
+Notation reach := (Model.reach matches).
+
+(* an id that is neither a stream nor a call in A2 has no receiver anywhere *)
+Lemma no_cursor s c id : Inv s -> c < length (chans s) -> lookup (streams s) id = None -> (forall r c', ~ a2 s id r c') -> cursor (chan_at s c) id = None.
 Proof.
-  intros Hs C. pose proof C as [Hc Ha]. destruct Hs; try exact C.
-  - (* push *) apply try_push_pushed in H0. destruct H0 as (_ & _ & Hcap & _). eapply (caps_upd s _ c ch'); [exact C | reflexivity | reflexivity | intros _; lia].
-  - (* next, failure *) eapply soc_cap_chain; [|apply length_close_all | reflexivity | exact C]. intros c. apply same_or_closed_strict_close_all.
+  intros I Hlt Hs Ha. destruct (cursor (chan_at s c) id) as [p|] eqn:E; [|reflexivity].
+  destruct (inv_cur _ _ I _ _ _ Hlt E) as [_ [(st & Hst & _)|(r & Har)]]; [congruence | destruct (Ha _ _ Har)].
+Qed.
+
+Lemma shape_step s l s' : tstep s l s' -> Inv s -> shape_ok s -> shape_ok s'.
+Proof.
+  intros Hs I C. pose proof C as [Hc Ha]. destruct Hs; try exact C.
+  - (* push *) apply try_push_pushed_cap in H0. destruct H0 as [Hcap Hrcv]. eapply (shape_upd s _ c ch'); [exact C | reflexivity | reflexivity|].
+    intros _ [K1 K2]. split; [lia | now rewrite Hrcv].
+  - (* next, failure *) eapply shape_soc; [|apply length_close_all | reflexivity | exact C]. intros c. apply strict_close_all.
   - (* add start *) split; [exact Hc|]. intros sid' a' Hl. cbn [adds with_adds] in Hl. destruct (Nat.eq_dec sid' sid) as [->|Hne].
     + rewrite lookup_put_same in Hl. inversion Hl; subst. exact H0.
     + rewrite lookup_put_other in Hl by assumption. eauto.
@@ -71,36 +85,83 @@ Proof.
   - split; [exact Hc|]. intros sid' a' Hl. cbn [adds with_adds] in Hl. destruct (Nat.eq_dec sid' sid) as [->|Hne].
     + rewrite lookup_put_same in Hl. inversion Hl; subst. cbn. eauto.
     + rewrite lookup_put_other in Hl by assumption. eauto.
-  - (* occupied *) subst c ch1 s1 s2. split.
-    + intros c0 Hlt. cbn [chans with_adds with_streams with_subs] in Hlt. rewrite chans_set_chan, length_upd in Hlt. autorewrite with chat.
+  - (* occupied *) subst c ch1 s1 s2. destruct (inv_entry _ _ I _ _ H2) as [_ Hlt].
+    assert (Hnc : cursor (chan_at s (e_ch e)) sid = None).
+    { apply (no_cursor s _ sid I Hlt); [eapply inv_ids; eassumption | eapply no_a2_pc; [eassumption | intros c0; congruence]]. }
+    split.
+    + intros c0 Hlt0. cbn [chans with_adds with_streams with_subs] in Hlt0. rewrite chans_set_chan, length_upd in Hlt0. autorewrite with chat.
       destruct (Nat.eq_dec c0 (e_ch e)) as [->|Hne]; [rewrite chan_at_set_same by assumption | rewrite chan_at_set_other by assumption; now apply Hc].
-      specialize (Hc _ Hlt). destruct (a_q a); cbn; lia.
+      apply chok_subscribe; [destruct (a_q a); [apply chok_grow|]; now apply Hc | destruct (a_q a); exact Hnc].
     + intros sid' a' Hl. cbn [adds with_adds with_streams with_subs set_chan with_chans] in Hl. apply in_del_lookup in Hl. eauto.
   - (* vacant *) subst c capacity s1 s2. split.
     + intros c0 Hlt. cbn [chans with_adds with_subs with_chans] in Hlt. rewrite app_length in Hlt. cbn [length] in Hlt. autorewrite with chat.
       destruct (Nat.eq_dec c0 (length (chans s))) as [->|Hne].
-      * rewrite chan_at_app_new. cbn. specialize (Ha _ _ H). destruct (a_q a) as [[|n]|]; [congruence | lia | unfold default_max_queued; lia].
+      * rewrite chan_at_app_new. split; [|cbn; repeat constructor; tauto]. cbn. specialize (Ha _ _ H).
+        destruct (a_q a) as [[|n]|]; [congruence | lia | unfold default_max_queued; lia].
       * rewrite chan_at_app_old by lia. apply Hc. lia.
     + intros sid' a' Hl. cbn [adds with_adds] in Hl. destruct (Nat.eq_dec sid' sid) as [->|Hne].
       * rewrite lookup_put_same in Hl. inversion Hl; subst. cbn. eauto.
       * rewrite lookup_put_other in Hl by assumption. eauto.
   - (* add sender *) split; [exact Hc|]. intros sid' a' Hl. cbn [adds with_adds] in Hl. apply in_del_lookup in Hl. eauto.
-  - (* unfiltered *) eapply (caps_upd s _ 0); [exact C | reflexivity | reflexivity | intros _; reflexivity].
-  - (* poll *) apply try_recv_got in H0. destruct H0 as (p0 & _ & _ & Hlog & _). unfold try_recv in *.
-    eapply (caps_upd s _ (s_ch st) ch'); [exact C | reflexivity | reflexivity|]. intros _.
-    (* the channel after a receive differs only in one cursor *)
-    admit.
-  - apply caps_bury in C. exact C.
-  - now apply caps_bury.
-  - (* clone *) eapply (caps_upd s _ (s_ch st)); [exact C | reflexivity | reflexivity|]. intros _. unfold clone_rcv. destruct (cursor (chan_at s (s_ch st)) sid); reflexivity.
-  - (* set capacity *) eapply (caps_upd s _ (s_ch st)); [exact C | reflexivity | reflexivity|]. intros _. cbn. lia.
-  - now apply caps_bury.
-  - admit.
-  - admit.
-  - admit.
-  - admit.
-  - admit.
-  - admit.
-Admitted.
+  - (* unfiltered *) apply fresh_spec in H. destruct H as (Hn1 & Hn2 & _). pose proof (inv_len _ _ I) as Hl2.
+    eapply (shape_upd s _ 0); [exact C | reflexivity | reflexivity|]. intros Hlt Hk. apply chok_subscribe; [exact Hk|].
+    apply (no_cursor s 0 sid I Hlt Hn1). now apply no_a2_none.
+  - (* poll *) apply try_recv_got_shape in H0. destruct H0 as [Hcap Hrcv].
+    eapply (shape_upd s _ (s_ch st) ch'); [exact C | reflexivity | reflexivity|]. intros _ [K1 K2]. split; [lia | now rewrite Hrcv].
+  - apply (shape_bury s sid st) in C. exact C.
+  - now apply shape_bury.
+  - (* clone *) destruct H as [Hl Hd]. apply fresh_spec in H0. destruct H0 as (Hn1 & Hn2 & _). destruct (inv_stream _ _ I _ _ Hl) as (Hlt & _).
+    eapply (shape_upd s _ (s_ch st)); [exact C | reflexivity | reflexivity|]. intros _ Hk. apply chok_clone; [exact Hk|].
+    apply (no_cursor s _ sid2 I Hlt Hn1). now apply no_a2_none.
+  - (* set capacity *) eapply (shape_upd s _ (s_ch st)); [exact C | reflexivity | reflexivity|]. intros _ Hk. now apply chok_grow.
+  - now apply shape_bury.
+  - (* async drop, subs, done *) pose proof (rm_apply_frame _ _ _ _ H3) as (_ & _ & Eadd & _).
+    assert (C1 : shape_ok s1).
+    { eapply (shape_soc s s1); [intros c; eapply strict_rm_apply; eassumption | | exact Eadd | exact C]. apply rm_apply_spec, rm_spec_tables in H3. tauto. }
+    exact (shape_bury s1 sid st C1).
+  - pose proof (rm_apply_frame _ _ _ _ H3) as (_ & _ & Eadd & _).
+    eapply (shape_soc s); [intros c0; autorewrite with chat; eapply strict_rm_apply; eassumption | | exact Eadd | exact C]. cbn [chans with_drops]. apply rm_apply_spec, rm_spec_tables in H3. tauto.
+  - (* async drop, sender *)
+    assert (C1 : shape_ok (rm_sender s r)) by (eapply (shape_soc s); [intros c0; apply strict_rm_sender | apply length_chans_rm | apply adds_rm | exact C]).
+    exact (shape_bury _ sid st C1).
+  - pose proof (rm_apply_frame _ _ _ _ H1) as (_ & _ & Eadd & _).
+    eapply (shape_soc s); [intros c0; autorewrite with chat; eapply strict_rm_apply; eassumption | | exact Eadd | exact C]. cbn [chans with_tasks]. apply rm_apply_spec, rm_spec_tables in H1. tauto.
+  - pose proof (rm_apply_frame _ _ _ _ H1) as (_ & _ & Eadd & _).
+    eapply (shape_soc s); [intros c0; autorewrite with chat; eapply strict_rm_apply; eassumption | | exact Eadd | exact C]. cbn [chans with_tasks]. apply rm_apply_spec, rm_spec_tables in H1. tauto.
+  - eapply (shape_soc s); [intros c0; autorewrite with chat; apply strict_rm_sender | cbn [chans with_tasks]; apply length_chans_rm | cbn [adds with_tasks]; apply adds_rm | exact C].
+Qed.
+
+Lemma shape_init : shape_ok init.
+Proof.
+  split; [|intros sid a H; discriminate]. intros c Hlt. unfold init, chan_at in *. cbn in *.
+  destruct c as [|[|c]]; cbn; [| |lia]; split; cbn; try constructor; unfold default_max_queued, method_return_cap; lia.
+Qed.
+
+Lemma shape_reach tr s : reach tr s -> shape_ok s.
+Proof.
+  induction 1 as [|tr s l s' Hr IH Hs]; [exact shape_init|]. eapply shape_step; [apply step_tstep; eassumption | eapply Inv_reach; eassumption | assumption].
+Qed.
+
+(* ------------------------------------------------------------------ the reader is blocked only behind a stream the application
+   can poll *)
+Theorem progress tr s it c todo : reach tr s -> drops s = [] -> reader s = RPush it (c :: todo) -> try_push it (chan_at s c) = PFull ->
+  exists sid st s', lookup (streams s) sid = Some st /\ s_ch st = c /\ step (LPoll sid) s = Some s'.
+Proof.
+  intros Hr Hd Hrd Hfull. pose proof (Inv_reach _ _ _ Hr) as I. pose proof (shape_reach _ _ Hr) as [Hshape _].
+  destruct (inv_todo _ _ I _ _ Hrd) as [Htd _]. destruct (Htd c (or_introl eq_refl)) as (k & Hk & _). destruct (inv_shape _ _ I _ _ Hk) as [Hlt _].
+  destruct (Hshape _ Hlt) as [Hcap Hnd].
+  (* full: the queue is not empty, so some receiver lags *)
+  assert (Hq : 0 < qlen (chan_at s c)).
+  { unfold try_push in Hfull. destruct (closed (chan_at s c)); [discriminate|]. destruct (rcv (chan_at s c)); [discriminate|].
+    destruct (cap (chan_at s c) <=? qlen (chan_at s c)) eqn:E; [|discriminate]. apply Nat.leb_le in E. lia. }
+  destruct (qlen_pos_receiver _ Hq) as (id & p & Hin & Hp).
+  assert (Hcur : cursor (chan_at s c) id = Some p) by (unfold cursor; now apply cursor_in_nodup).
+  destruct (inv_cur _ _ I _ _ _ Hlt Hcur) as [_ [(st & Hst & Hch)|(r & Ha)]].
+  - exists id, st. unfold Model.step. rewrite Hst, Hd. cbn [lookup]. rewrite Hch. unfold try_recv. rewrite Hcur.
+    destruct (nth_error (log (chan_at s c)) p) as [x|] eqn:En; [eexists; repeat split; reflexivity|].
+    apply nth_error_None in En. unfold tail in Hp. lia.
+  - (* a call in A2 owns a receiver only on an unregistered channel *)
+    destruct (inv_a2 _ _ I _ _ _ Ha) as (_ & Hno & _). destruct (Hno _ Hk).
+Qed.
 
 End Progress.
